@@ -26,9 +26,17 @@ pub enum SendOp {
     Demonitor { from: Value, to: Value, reference: Value },
 }
 
+fn yes() -> bool {
+    true
+}
+
 #[derive(Clone, Debug, Serialize, Deserialize)]
 pub struct SeqCase {
+    /// this side offers DIST_HDR_ATOM_CACHE
     pub header_mode: bool,
+    /// the peer offers DIST_HDR_ATOM_CACHE (header mode is negotiated only if both do)
+    #[serde(default = "yes")]
+    pub peer_header: bool,
     pub ops: Vec<SendOp>,
     pub repr: Vec<u8>,
     /// 0: connected, 1: never connected, 2: closed before the operations
@@ -118,7 +126,8 @@ fn seq_run(c: &SeqCase) -> Result<Result<SeqOutcome, String>, BedErr> {
             }
             return Ok(SeqOutcome { results, frames: vec![], leftover: 0 });
         }
-        let (mut conn, mut p, _) = connected_pair(&bed, our, u64::MAX, Duration::from_secs(5)).await?;
+        let theirs = if c.peer_header { u64::MAX } else { u64::MAX & !DistributionFlags::DIST_HDR_ATOM_CACHE.as_u64() };
+        let (mut conn, mut p, _) = connected_pair(&bed, our, theirs, Duration::from_secs(5)).await?;
         if c.state == 2 {
             let _ = conn.close().await;
         }
@@ -163,9 +172,10 @@ pub fn seq_oracle(c: &SeqCase) -> Verdict {
     }
     let mut cache = PeerCache::default();
     let mut boundary = false;
+    let negotiated_header = c.header_mode && c.peer_header;
     for (i, (op, frame)) in ok_ops.iter().zip(&out.frames).enumerate() {
         let (want_c, want_p) = expected_control(op);
-        let (got_c, got_p) = if c.header_mode {
+        let (got_c, got_p) = if negotiated_header {
             match read_dist_message(frame, &mut cache) {
                 Ok(m) => (m.control, m.payload),
                 Err(e) => vfail!("frame-not-readable", "frame {i} for {:?} is not a well-formed distribution-header message: {:?}", op, e),
@@ -193,14 +203,21 @@ pub fn seq_oracle(c: &SeqCase) -> Verdict {
     // failed operations: acceptable only for what the format cannot carry
     for (op, r) in c.ops.iter().zip(&out.results) {
         if let Err(e) = r {
-            let too_many_atoms = e.contains("too many atoms") && c.header_mode;
+            let too_many_atoms = e.contains("too many atoms") && negotiated_header;
             if !too_many_atoms && !e.contains("too large") {
                 vfail!("operation-failed-on-connected-connection", "{:?} failed: {e}", op);
             }
         }
     }
     let info = if boundary || c.ops.len() >= 2 { CaseInfo::nt(fp(&format!("{:?}", c))) } else { CaseInfo::trivial() };
-    Verdict::Pass(info.class_if(c.header_mode, "header-mode").class_if(!c.header_mode, "pass-through").class_if(boundary, "unlink-id>=2^31"))
+    let failed_ops = out.results.iter().filter(|r| r.is_err()).count();
+    Verdict::Pass(
+        info.class_if(negotiated_header, "header-mode")
+            .class_if(!negotiated_header, "pass-through")
+            .class_if(c.header_mode != c.peer_header, "asymmetric-header-flag")
+            .class_if(failed_ops > 0, "unencodable-operation-in-sequence")
+            .class_if(boundary, "unlink-id>=2^31"),
+    )
 }
 
 // ---- concurrent senders through one Node ---------------------------------------------------------
@@ -350,7 +367,15 @@ pub fn conc_oracle(c: &ConcCase) -> Verdict {
 }
 
 fn op_strategy() -> impl Strategy<Value = SendOp> {
-    let payload = || arb_value(GenCfg { depth: 3, size: 12, heavy: false, ..GenCfg::std() });
+    let payload = || {
+        prop_oneof![
+            14 => arb_value(GenCfg { depth: 3, size: 12, heavy: false, ..GenCfg::std() }),
+            // more distinct atoms than a distribution header can reference (fails in header mode only)
+            1 => (256usize..320).prop_map(|n| Value::list((0..n).map(|i| Value::atom(&format!("atom_{i}"))).collect())),
+            // an atom no encoding can carry (fails in both modes)
+            1 => Just(Value::Tuple(vec![Value::int(1), Value::Atom("x".repeat(65536))])),
+        ]
+    };
     let id = prop_oneof![
         3 => prop::sample::select(vec![0u64, 1, (1 << 31) - 1, 1 << 31, 1 << 32, (1u64 << 63) - 1, 1u64 << 63, u64::MAX]),
         2 => any::<u64>(),
@@ -368,8 +393,8 @@ fn op_strategy() -> impl Strategy<Value = SendOp> {
 }
 
 fn seq_strategy() -> impl Strategy<Value = SeqCase> {
-    (any::<bool>(), prop::collection::vec(op_strategy(), 1..8), arb_choices(24), prop_oneof![8 => Just(0u8), 1 => Just(1u8), 1 => Just(2u8)])
-        .prop_map(|(header_mode, ops, repr, state)| SeqCase { header_mode, ops, repr, state })
+    (any::<bool>(), prop::bool::weighted(0.7), prop::collection::vec(op_strategy(), 1..8), arb_choices(24), prop_oneof![8 => Just(0u8), 1 => Just(1u8), 1 => Just(2u8)])
+        .prop_map(|(header_mode, peer_header, ops, repr, state)| SeqCase { header_mode, peer_header, ops, repr, state })
 }
 
 fn conc_strategy() -> impl Strategy<Value = ConcCase> {
